@@ -32,15 +32,15 @@ func init() {
 		ID:    "C19",
 		Level: "exploration",
 		Rule: "seeded Swagger 2.0 descriptions (base path, global and per-operation consumes/produces over 9 lower-case media types, 0-4 security definitions, global/per-operation/cleared security with 1-2 scheme alternatives and anonymous, 0-6 operations over 7 methods) loaded with loads.Analyzed; " +
-			"per description and JSON-defaults mode the registration sets: exact, every single omission, single additions per category (fresh media type, fresh/other-method/path-case operation, fresh/case-variant scheme), case variants of media types and methods, duplicates, random multi-category deltas; " +
-			"oracle = per-category set comparison computed from the generated description; every exactly registered, validated API is served through Context.APIHandler with >= 3 well-formed requests per operation (each consumes/produces type, charset parameter, upper-case media type, Accept forms, scripted 'does not apply' authenticators) using tagged stub consumers/producers/authenticators. " +
-			"non-trivial = (description, registration set) with a non-empty delta, distinct by (description hash, delta); and (description, mode, operation, request shape) served by a validated API whose description names >= 2 media types",
+			"per description and JSON-defaults mode the registration sets: exact, every single omission, single additions per category (fresh media type, wildcard media type, media type with a parameter, fresh/other-method/path-case/trailing-slash operation (also substituted for the declared one), fresh/case-variant scheme, authenticator for a declared-but-unused definition), case variants of media types and methods, duplicates, random multi-category deltas; " +
+			"oracle = per-category set comparison computed from the generated description; Validate is called twice in a row on every API (same outcome required); every registration set that validates (exact, case variants, duplicates, application/json left to the JSON defaults, ...) is served, after the second Validate, through Context.APIHandler with >= 3 well-formed requests per operation (each consumes/produces type, charset parameter, upper-case media type, Accept forms, scripted 'does not apply' authenticators) using tagged stub consumers/producers/authenticators. " +
+			"non-trivial = (description, registration set) with a non-empty delta, distinct by (description hash, delta); and (description, mode, registration kind, operation, request shape) served by a validated API whose description names >= 2 media types",
 		Assumptions: []string{
 			"descriptions name media types in lower case, without parameters or wildcards (the statement's serving clause is restricted to these); case variants are exercised on the registration side, where a media type registered in another letter case counts as that media type and a method in another letter case as that method; paths and scheme names are compared exactly",
 			"every security requirement names a declared security definition (valid Swagger); 'consumes'/'produces' are never present-but-empty",
-			"a media type or scheme named only globally and overridden by every operation is required under the reading 'everything the description names' and not under the reading 'everything some operation uses': the oracle accepts an outcome that is consistent with either reading as a whole",
+			"a media type or scheme named only globally and overridden by every operation is required under the reading 'everything the description names' and not under the reading 'everything some operation uses': the oracle accepts an outcome that is consistent with either reading, but for one category only ONE reading over the whole run: a validation that only the first reading explains and another that only the second explains, for the same category, are a violation (success would be 'exactly when' under neither)",
 			"the statement fixes neither the order of reported names nor, for the security-definitions category, which of the two lists carries an unused definition: names are compared as sets (duplicates refused), and for that category the union of both lists is compared",
-			"not judged (counted as skipped): serving an operation for which no produces exists at any level (and no JSON default) while its handler returns a value, and sending a body to an operation for which no consumes exists at any level - no registration could have prevented the failure",
+			"for an operation for which no produces exists at any level (and no JSON default) requests are sent (Accept absent or */*) and the route, the authenticators consulted, the handler reached and the consumer used are judged; only what happens after the handler returned is not (a \"can't find a producer\" failure there is tolerated: no registration could have prevented it; the same failure before the handler ran is a violation). Not judged (counted as skipped): sending a body to an operation for which no consumes exists at any level",
 			"authenticator stubs either succeed with a principal or do not apply; erroring authenticators and authorizers belong to C02",
 		},
 		MinNontrivial: 3000,
@@ -116,6 +116,9 @@ type Case struct {
 	Desc Desc `json:"desc"`
 	Reg  Reg  `json:"reg"`
 	Req  *Req `json:"req,omitempty"`
+	// Other is validated before this case, in the same process: the earlier half of an observation
+	// about two validations (one reading of "requires" for one category, see noteReading)
+	Other *Case `json:"other,omitempty"`
 }
 
 // ---- rendering the Swagger document ----
@@ -576,10 +579,13 @@ func judgeValidate(m *mon.M, d *Desc, doc *loads.Document, dhash string, g *Reg,
 	m.Eval(1)
 	cas := &Case{Desc: *d, Reg: *g}
 	var api *untyped.API
-	var err error
+	var err, errAgain error
 	pv, st := mon.Catch(func() {
 		api = buildAPI(doc, g, rec)
 		err = api.Validate()
+		// nothing is registered in between: the same registrations are validated a second time, and
+		// it is the API validated twice that is served afterwards
+		errAgain = api.Validate()
 	})
 	kc := kindClass(g.Kind)
 	if pv != nil {
@@ -587,9 +593,14 @@ func judgeValidate(m *mon.M, d *Desc, doc *loads.Document, dhash string, g *Reg,
 		return nil, false
 	}
 	obs := observe(err)
+	if again := observe(errAgain); !sameObservation(obs, again) {
+		m.Violate("second-validate-differs/"+kc, fmt.Sprintf("Validate -> %s; Validate called again at once on the same API (no registration in between) -> %s; registration kind %s, %s\ndescription: %s",
+			obs, again, g.Kind, modeName(g), render(d)), cas)
+	}
 	reg := registered(d, g)
-	named := expect(required(d, false), reg)
-	inForce := expect(required(d, true), reg)
+	reqNamed, reqInForce := required(d, false), required(d, true)
+	named := expect(reqNamed, reg)
+	inForce := expect(reqInForce, reg)
 	if named.cat >= 0 {
 		m.NT(dhash + "|" + modeName(g) + "|" + named.String())
 		m.Class("validate:expected-failure/" + catNames[named.cat])
@@ -609,6 +620,7 @@ func judgeValidate(m *mon.M, d *Desc, doc *loads.Document, dhash string, g *Reg,
 		}
 	}
 	if agrees(obs, named) || agrees(obs, inForce) {
+		noteReading(m, cas, obs, named, inForce, reqNamed, reqInForce, reg)
 		return api, obs.ok
 	}
 	detail := fmt.Sprintf("Validate -> %s; the description requires -> %s (or, counting only what is in force for some operation -> %s); registration kind %s, %s\ndescription: %s",
@@ -631,6 +643,90 @@ func judgeValidate(m *mon.M, d *Desc, doc *loads.Document, dhash string, g *Reg,
 		m.Violate("incomplete-report/"+catNames[obs.cat]+"/"+which+"/"+kc, detail, cas)
 	}
 	return api, obs.ok
+}
+
+func sameObservation(a, b observation) bool {
+	if a.ok != b.ok || a.other != b.other || a.section != b.section {
+		return false
+	}
+	return setOf(a.missReg).equal(setOf(b.missReg)) && setOf(a.missSpec).equal(setOf(b.missSpec)) && len(a.missReg) == len(b.missReg) && len(a.missSpec) == len(b.missSpec)
+}
+
+// ---- one reading of "requires" per category ----
+
+// A media type or scheme that is named only globally and overridden by every operation is required
+// under one reading of the statement and not under the other; the statement does not choose. But
+// "succeeds exactly when ... coincide" holds for a category only if ONE of the readings is applied to
+// it: an implementation that takes the missing side from one reading and the superfluous side from
+// the other accepts both the registration set with and the one without such a name, and each of
+// the two outcomes, taken alone, is explained by one reading. readings keeps, per category and per
+// reading, the first validation (of this process) that only that reading explains.
+type readingWitness struct {
+	cas  *Case
+	text string
+}
+
+var readings struct {
+	named, inForce [nCats]*readingWitness
+	reported       [nCats]bool
+}
+
+func resetReadings() {
+	readings.named = [nCats]*readingWitness{}
+	readings.inForce = [nCats]*readingWitness{}
+	readings.reported = [nCats]bool{}
+}
+
+func sameVerdict(a, b verdict) bool {
+	return a.cat == b.cat && a.missing.equal(b.missing) && a.extra.equal(b.extra)
+}
+
+// noteReading is called for an observation that agrees with at least one reading.
+func noteReading(m *mon.M, cas *Case, obs observation, named, inForce verdict, reqNamed, reqInForce, reg [nCats]strset) {
+	if sameVerdict(named, inForce) {
+		return
+	}
+	aN, aE := agrees(obs, named), agrees(obs, inForce)
+	if aN == aE {
+		return
+	}
+	// the category that tells the readings apart for this registration set: the first one whose
+	// difference sets depend on the reading (before it both readings find the same - empty -
+	// differences, or the two verdicts would be the same failure)
+	cat := -1
+	for c := 0; c < nCats; c++ {
+		if !reqNamed[c].minus(reg[c]).equal(reqInForce[c].minus(reg[c])) || !reg[c].minus(reqNamed[c]).equal(reg[c].minus(reqInForce[c])) {
+			cat = c
+			break
+		}
+	}
+	if cat < 0 {
+		return
+	}
+	w := &readingWitness{cas: cas, text: fmt.Sprintf("registration kind %s, %s: Validate -> %s; requirement = everything the description names -> %s; requirement = everything in force for some operation -> %s\ndescription: %s",
+		cas.Reg.Kind, modeName(&cas.Reg), obs, named, inForce, render(&cas.Desc))}
+	mine, theirs, which := &readings.named[cat], &readings.inForce[cat], "named"
+	if aE {
+		mine, theirs, which = &readings.inForce[cat], &readings.named[cat], "in-force"
+	}
+	m.Class("validate:explained-by-" + which + "-reading-only/" + catNames[cat])
+	if *mine == nil {
+		*mine = w
+	}
+	if *theirs == nil || readings.reported[cat] {
+		return
+	}
+	readings.reported[cat] = true
+	first := *theirs
+	c2 := *cas
+	o := *first.cas
+	o.Other = nil
+	o.Req = nil
+	c2.Other = &o
+	c2.Req = nil
+	m.Violate("inconsistent-reading-of-requires/"+catNames[cat],
+		fmt.Sprintf("category %q: no single reading of what the description requires explains both validations (success is not 'exactly when' under either).\nonly the %s reading explains: %s\nonly the other reading explains: %s",
+			catNames[cat], which, w.text, first.text), &c2)
 }
 
 // revalidateAfterToggle: validation judges the registrations the API holds when it is called, whatever
@@ -664,10 +760,12 @@ func revalidateAfterToggle(m *mon.M, d *Desc, doc *loads.Document, g *Reg, kc st
 		delete(reg[catConsumes], "application/json")
 		delete(reg[catProduces], "application/json")
 	}
-	named := expect(required(d, false), reg)
-	inForce := expect(required(d, true), reg)
+	reqNamed, reqInForce := required(d, false), required(d, true)
+	named := expect(reqNamed, reg)
+	inForce := expect(reqInForce, reg)
 	m.Class("validate:again-after-json-defaults-toggle")
 	if agrees(obs, named) || agrees(obs, inForce) {
+		noteReading(m, cas, obs, named, inForce, reqNamed, reqInForce, reg)
 		return true
 	}
 	first := "ok"
@@ -742,26 +840,47 @@ func serveOne(m *mon.M, d *Desc, g *Reg, h http.Handler, rec *recorder, rq *Req,
 	}
 	rw := httptest.NewRecorder()
 	pv, st := mon.Catch(func() { h.ServeHTTP(rw, req) })
-	what := fmt.Sprintf("%s %s (Content-Type %q, Accept %q, deny %v) on %s API", strings.ToUpper(op.Method), req.URL.Path, rq.ContentType, rq.Accept, rq.Deny, mode)
+	what := fmt.Sprintf("%s %s (Content-Type %q, Accept %q, deny %v) on %s API, registration kind %s", strings.ToUpper(op.Method), req.URL.Path, rq.ContentType, rq.Accept, rq.Deny, mode, g.Kind)
 	if nontrivial {
-		m.NT("served|" + dhash + "|" + mode + "|" + fmt.Sprint(rq.Op) + "|" + rq.Shape)
+		m.NT("served|" + dhash + "|" + mode + "|" + kindClass(g.Kind) + "|" + fmt.Sprint(rq.Op) + "|" + rq.Shape)
 	}
+	// noProd: no media type is declared for the responses of this operation at any level (and there
+	// is no JSON default): no producer could have been registered for it without failing validation.
+	// Only the producer lookup AFTER the handler returned is exempt; the route, the authenticators and
+	// the handler are judged as for every other operation.
+	noProd := len(withDefault(effProduces(d, op), g)) == 0
+	producerless := false
+	ranRight := len(rec.handled) == 1 && rec.handled[0] == opName(op.Method, op.Path)
 	if pv != nil {
 		msg := fmt.Sprint(pv)
-		if strings.Contains(msg, "can't find a producer") {
+		switch {
+		case strings.Contains(msg, "can't find a producer") && noProd && ranRight:
+			producerless = true
+			m.Class("serve:no-produces-at-any-level/producer-lookup-failed-after-handler")
+		case strings.Contains(msg, "can't find a producer") && noProd:
+			m.Violate("serve/panic-cant-find-producer-before-handler/"+mode, fmt.Sprintf("%s panicked: %s; the operation declares no produces at any level, but the handler had not run (handlers invoked: %v)\ndescription: %s", what, msg, rec.handled, render(d)), cas)
+			return
+		case strings.Contains(msg, "can't find a producer"):
 			m.Violate("serve/panic-cant-find-producer/"+mode, fmt.Sprintf("%s panicked: %s\ndescription: %s", what, msg, render(d)), cas)
-		} else {
+			return
+		default:
 			m.Violate("serve/panic-other/"+mode, fmt.Sprintf("%s panicked: %s\n%s", what, msg, st), cas)
+			return
 		}
-		return
 	}
 	res := rw.Result()
 	rb, _ := io.ReadAll(res.Body)
-	m.Class(fmt.Sprintf("serve:status-%d", res.StatusCode))
 	text := string(rb)
-	if res.StatusCode == http.StatusInternalServerError && (strings.Contains(text, "no consumer registered") || strings.Contains(text, "no producer")) {
-		m.Violate("serve/500-no-consumer-or-producer-registered/"+mode, fmt.Sprintf("%s -> 500 %s\ndescription: %s", what, text, render(d)), cas)
-		return
+	if !producerless {
+		m.Class(fmt.Sprintf("serve:status-%d", res.StatusCode))
+		if res.StatusCode == http.StatusInternalServerError && strings.Contains(text, "can't find a producer") && noProd && ranRight {
+			// the same failure, reported as an answer instead of a panic
+			producerless = true
+			m.Class("serve:no-produces-at-any-level/producer-lookup-failed-after-handler")
+		} else if res.StatusCode == http.StatusInternalServerError && (strings.Contains(text, "no consumer registered") || strings.Contains(text, "no producer")) {
+			m.Violate("serve/500-no-consumer-or-producer-registered/"+mode, fmt.Sprintf("%s -> 500 %s\ndescription: %s", what, text, render(d)), cas)
+			return
+		}
 	}
 	alts := effSecurity(d, op)
 	wantAccept := len(alts) == 0 || satisfied(alts, rec.deny)
@@ -805,6 +924,21 @@ func serveOne(m *mon.M, d *Desc, g *Reg, h http.Handler, rec *recorder, rq *Req,
 		m.Violate("serve/wrong-handler/"+mode, fmt.Sprintf("%s invoked handlers %v", what, rec.handled), cas)
 		return
 	}
+	if noProd {
+		// what is written after the handler returned is not judged for these operations
+		if !producerless {
+			m.Class("serve:no-produces-at-any-level/answered")
+		}
+		if len(rec.produced) != 0 {
+			m.Violate("serve/wrong-producer/"+mode, fmt.Sprintf("%s: the operation declares no produces at any level, but stub producers %v were invoked", what, rec.produced), cas)
+			return
+		}
+		if !checkConsumer(m, op, g, rq, rec, what, mode, cas) {
+			return
+		}
+		m.Class("serve:ok-handler-reached-no-produces")
+		return
+	}
 	if res.StatusCode != op.Code {
 		m.Violate("serve/unexpected-status/"+mode, fmt.Sprintf("%s -> %d %s, declared success code %d", what, res.StatusCode, clipS(text), op.Code), cas)
 		return
@@ -827,19 +961,27 @@ func serveOne(m *mon.M, d *Desc, g *Reg, h http.Handler, rec *recorder, rq *Req,
 			return
 		}
 	}
+	if !checkConsumer(m, op, g, rq, rec, what, mode, cas) {
+		return
+	}
+	m.Class("serve:ok")
+}
+
+// checkConsumer: the consumer that read the body must be the one registered for the announced type.
+func checkConsumer(m *mon.M, op *Op, g *Reg, rq *Req, rec *recorder, what, mode string, cas *Case) bool {
 	if op.Body && rq.ContentType != "" {
 		ct, _, _ := mime.ParseMediaType(rq.ContentType)
 		if !setOf(lowerAll(g.Consumers))[ct] && ct == "application/json" && !g.NoJSONDefaults {
 			if len(rec.consumed) != 0 {
 				m.Violate("serve/wrong-consumer/"+mode, fmt.Sprintf("%s: stub consumers invoked %v, expected the JSON default", what, rec.consumed), cas)
-				return
+				return false
 			}
 		} else if len(rec.consumed) != 1 || rec.consumed[0] != ct {
 			m.Violate("serve/wrong-consumer/"+mode, fmt.Sprintf("%s: consumers invoked %v, expected the one registered for %q", what, rec.consumed, ct), cas)
-			return
+			return false
 		}
 	}
-	m.Class("serve:ok")
+	return true
 }
 
 func lowerAll(l []string) []string {
@@ -867,12 +1009,16 @@ func upperType(mt string) string {
 }
 
 // genRequests builds >= 3 well-formed requests for one operation of a validated API.
-// It returns nil when the operation must be skipped (no produces at any level).
-func genRequests(r *rand.Rand, d *Desc, g *Reg, idx int) (reqs []Req, skipped string) {
+// skipped names what is left out (no body is sent when no consumes exists at any level); partly names
+// what is judged up to the handler only (no produces at any level).
+func genRequests(r *rand.Rand, d *Desc, g *Reg, idx int) (reqs []Req, skipped, partly string) {
 	op := &d.Ops[idx]
 	prods := withDefault(effProduces(d, op), g)
-	if len(prods) == 0 {
-		return nil, "no-produces-at-any-level"
+	noProd := len(prods) == 0
+	if noProd {
+		// still served (route, authenticators, handler); only Accept forms that name no media type
+		prods = []string{""}
+		partly = "no-produces-at-any-level"
 	}
 	cons := withDefault(effConsumes(d, op), g)
 	body := hasBodyMethod(op.Method)
@@ -901,6 +1047,12 @@ func genRequests(r *rand.Rand, d *Desc, g *Reg, idx int) (reqs []Req, skipped st
 	}
 	acceptFor := func(i int, shape int) string {
 		mt := prods[i%len(prods)]
+		if noProd {
+			if shape%2 == 0 {
+				return ""
+			}
+			return "*/*"
+		}
 		switch shape {
 		case 0:
 			return ""
@@ -941,7 +1093,7 @@ func genRequests(r *rand.Rand, d *Desc, g *Reg, idx int) (reqs []Req, skipped st
 		rq.Shape = fmt.Sprintf("ct%d-%d/acc%d-%d/deny%d", i%max(1, len(cons)), cs, i%len(prods), as, len(rq.Deny))
 		reqs = append(reqs, rq)
 	}
-	return reqs, skipped
+	return reqs, skipped, partly
 }
 
 func max(a, b int) int {
@@ -987,7 +1139,9 @@ func runDesc(m *mon.M, r *rand.Rand, d *Desc, regs []Reg, serve bool, only *Req)
 		if !ok || api == nil {
 			continue
 		}
-		if only == nil && !(serve && strings.HasPrefix(g.Kind, "exact")) {
+		// "a validated API": every registration set that validates is served, whatever its kind (exact,
+		// letter-case variants, duplicates, application/json left to the JSON defaults, ...)
+		if only == nil && !serve {
 			continue
 		}
 		// registrations must coincide under the naming reading for the serving clause to be judged
@@ -1002,6 +1156,7 @@ func runDesc(m *mon.M, r *rand.Rand, d *Desc, regs []Reg, serve bool, only *Req)
 			continue
 		}
 		m.Note("validated_apis_served", 1)
+		m.Class("served-api:" + kindClass(g.Kind))
 		nontrivial := namedMediaTypes(d) >= 2
 		if only != nil {
 			if only.Op >= 0 && only.Op < len(d.Ops) {
@@ -1011,10 +1166,13 @@ func runDesc(m *mon.M, r *rand.Rand, d *Desc, regs []Reg, serve bool, only *Req)
 		}
 		m.Begin(&Case{Desc: *d, Reg: *g})
 		for idx := range d.Ops {
-			reqs, skipped := genRequests(r, d, g, idx)
+			reqs, skipped, partly := genRequests(r, d, g, idx)
 			if skipped != "" {
 				m.Note("skipped:"+skipped, 1)
 				m.Class("serve:skipped/" + skipped)
+			}
+			if partly != "" {
+				m.Note("judged-up-to-the-handler:"+partly, 1)
 			}
 			for k := range reqs {
 				serveOne(m, d, g, h, rec, &reqs[k], dhash, nontrivial)
@@ -1199,6 +1357,8 @@ func genDesc(r *rand.Rand) *Desc {
 	return d
 }
 
+var wildcards = []string{"*/*", "text/*", "application/*", "*"}
+
 func structOf(p string) string {
 	shape := ""
 	for _, seg := range strings.Split(strings.TrimPrefix(p, "/"), "/") {
@@ -1369,6 +1529,48 @@ func variants(r *rand.Rand, d *Desc, nmulti int) []Reg {
 				one(g)
 			}
 		}
+		// a wildcard is a name like any other on the registration side: no description names it
+		{
+			w := wildcards[r.Intn(len(wildcards))]
+			if r.Intn(2) == 0 {
+				g = cloneReg(base, "addition:consumer-wildcard")
+				g.Consumers = append(g.Consumers, w)
+			} else {
+				g = cloneReg(base, "addition:producer-wildcard")
+				g.Producers = append(g.Producers, w)
+			}
+			one(g)
+		}
+		// an authenticator for a definition that is declared but used nowhere: superfluous among the
+		// authenticators, a category that comes before the security definitions
+		for _, sd := range d.SecDefs {
+			if !named[catAuth][sd.Name] {
+				g = cloneReg(base, "addition:authenticator-unused-definition")
+				g.Auths = append(g.Auths, sd.Name)
+				one(g)
+				break
+			}
+		}
+		// a declared path with / without its trailing slash is another path (names are compared exactly)
+		if len(base.Ops) > 0 {
+			o := base.Ops[r.Intn(len(base.Ops))]
+			v := o.Path + "/"
+			if strings.HasSuffix(o.Path, "/") {
+				v = strings.TrimSuffix(o.Path, "/")
+			}
+			if v != "" && !named[catOperation][opName(o.Method, v)] {
+				g = cloneReg(base, "addition:operation-trailing-slash")
+				g.Ops = append(g.Ops, OpReg{Method: o.Method, Path: v})
+				one(g)
+				g = cloneReg(base, "substitution:operation-trailing-slash")
+				for i := range g.Ops {
+					if g.Ops[i] == o {
+						g.Ops[i].Path = v
+					}
+				}
+				one(g)
+			}
+		}
 		// a parameterised media type is another name
 		if len(base.Consumers) > 0 {
 			g = cloneReg(base, "addition:consumer-with-parameter")
@@ -1447,6 +1649,7 @@ func variants(r *rand.Rand, d *Desc, nmulti int) []Reg {
 func run(m *mon.M) {
 	// loading a description allocates heavily and the live heap is tiny: collect less often
 	debug.SetGCPercent(800)
+	resetReadings()
 	r := m.Rand("descriptions")
 	n := m.N(700, 7000)
 	for i := 0; i < n; i++ {
@@ -1461,6 +1664,10 @@ func replay(m *mon.M, raw json.RawMessage) {
 	if err := json.Unmarshal(raw, &c); err != nil {
 		m.Violate("bad-replay-case", err.Error(), nil)
 		return
+	}
+	resetReadings()
+	if c.Other != nil {
+		runDesc(m, rand.New(rand.NewSource(1)), &c.Other.Desc, []Reg{c.Other.Reg}, false, nil)
 	}
 	runDesc(m, rand.New(rand.NewSource(1)), &c.Desc, []Reg{c.Reg}, c.Req != nil, c.Req)
 }
